@@ -21,6 +21,13 @@ def prodc_le_pmax(r, g, k):
     return 0
 
 
+def vsumn_zero(v, n):
+    i = 0
+    while i < n:
+        i = i + 1
+    return 0
+
+
 def prodc_update(r, g, g2, ci, n):
     i = 0
     while i < n:
@@ -58,9 +65,17 @@ PRODC_UPDATE = dict(
 )
 
 
+VSUMN_ZERO = dict(
+    params=[("v", SEQ), ("n", "Int")], returns="Int",
+    requires=["0 <= n", "forall(lambda j: v[j] == 0, 0, n)"], ensures=["VSUMN(v, n) == 0"],
+    loops={"0": dict(invariant=["0 <= i", "i <= n", "VSUMN(v, i) == 0"])},
+    ghost={"loop[0].before": ["use('VSUMN_unfold', v, 0)"], "loop[0].start": ["use('VSUMN_unfold', v, i + 1)"]},
+)
+
+
 def check(run):
     tree = ast.parse(GHOST_SRC)
-    for fn, contract in (("prodc_le_pmax", PRODC_LE_PMAX), ("prodc_update", PRODC_UPDATE)):
+    for fn, contract in (("prodc_le_pmax", PRODC_LE_PMAX), ("prodc_update", PRODC_UPDATE), ("vsumn_zero", VSUMN_ZERO)):
         node = next(n for n in tree.body if isinstance(n, ast.FunctionDef) and n.name == fn)
         fid = f"contracts/C04_ghost.py:{fn}"
         res = N.verify_translated(run, fid, node, ast.unparse(node), contract, {})
